@@ -12,6 +12,7 @@ PRELUDE = _s.PRELUDE + r'''
 #include <stdlib.h>
 #include "vs_http.h"
 int vs_exc_code; long g_now; const char *g_buf_base; size_t g_buf_len, g_effects;
+size_t g_lines, g_raw_added; const char *g_line_eff_p; size_t g_line_eff_n; bool g_line_eff; size_t g_line_start;
 static inline int vs_nondet_method(void) { int m; return m; }
 struct vs_opaque vs_http_methods;   /* the constant method-name table (written only by static initialisation) */
 /* value parsers called by HeadersStep::apply with a (pointer,length) range of the receive buffer: CookieJar::addFromRaw,
@@ -22,16 +23,37 @@ extern const char *g_buf_base; extern size_t g_buf_len; extern size_t g_effects;
      && (size_t)__CPROVER_POINTER_OFFSET(p) + (n) < g_buf_len)
 void vs_eff_cookiejar_addFromRaw(struct vs_opaque *jar, const char *p, size_t n)
 __CPROVER_requires(EFF_RANGE_PRE(p, n))
-__CPROVER_assigns(g_effects, vs_exc, jar->o)
-__CPROVER_ensures(g_effects == OLD(g_effects) + 1 && (vs_exc == 0 || VS_EXC_IS_STD(vs_exc)));
+__CPROVER_assigns(g_effects, vs_exc, jar->o, g_line_eff, g_line_eff_p, g_line_eff_n)
+__CPROVER_ensures(g_effects == OLD(g_effects) + 1 && (vs_exc == 0 || VS_EXC_IS_STD(vs_exc)) && g_line_eff && g_line_eff_p == p && g_line_eff_n == n);
 struct vs_opaque vs_eff_cookie_fromRaw(const char *p, size_t n)
 __CPROVER_requires(EFF_RANGE_PRE(p, n))
-__CPROVER_assigns(g_effects, vs_exc)
-__CPROVER_ensures(g_effects == OLD(g_effects) + 1 && (vs_exc == 0 || VS_EXC_IS_STD(vs_exc)));
+__CPROVER_assigns(g_effects, vs_exc, g_line_eff, g_line_eff_p, g_line_eff_n)
+__CPROVER_ensures(g_effects == OLD(g_effects) + 1 && (vs_exc == 0 || VS_EXC_IS_STD(vs_exc)) && g_line_eff && g_line_eff_p == p && g_line_eff_n == n);
 void vs_eff_header_parseRaw(struct vs_opaque *hdr, const char *p, size_t n)
 __CPROVER_requires(EFF_RANGE_PRE(p, n))
-__CPROVER_assigns(g_effects, vs_exc)
-__CPROVER_ensures(g_effects == OLD(g_effects) + 1 && (vs_exc == 0 || VS_EXC_IS_STD(vs_exc)));
+__CPROVER_assigns(g_effects, vs_exc, g_line_eff, g_line_eff_p, g_line_eff_n)
+__CPROVER_ensures(g_effects == OLD(g_effects) + 1 && (vs_exc == 0 || VS_EXC_IS_STD(vs_exc)) && g_line_eff && g_line_eff_p == p && g_line_eff_n == n);
+/* Header::Raw(name, value) and Collection::addRaw: the raw copy HeadersStep keeps of EVERY header line.  What is stored is checked against the
+   header-line grammar `name ":" SP* value CRLF` (C01 / C16 "value bytes intact"): the name ends at a ':', the value starts behind the spaces that
+   follow it and ends at the CRLF that ends the line; a typed header / cookie parser called for this line was handed the same value range */
+struct vs_rawhdr { struct vs_astr name, value; };
+extern size_t g_lines, g_raw_added; extern const char *g_line_eff_p; extern size_t g_line_eff_n; extern bool g_line_eff; extern size_t g_line_start;
+static inline struct vs_rawhdr vs_raw_make(struct vs_astr name, struct vs_astr value) { struct vs_rawhdr r; r.name = name; r.value = value; return r; }
+static inline void vs_eff_addRaw(struct vs_opaque *coll, struct vs_rawhdr raw)
+{
+    (void)coll;
+    const char *n = raw.name.src, *v = raw.value.src;
+    __CPROVER_assert(__CPROVER_same_object(n, g_buf_base) && __CPROVER_same_object(v, g_buf_base), "the raw header is cut out of the receive buffer");
+    size_t no = (size_t)__CPROVER_POINTER_OFFSET(n), vo = (size_t)__CPROVER_POINTER_OFFSET(v), nl = raw.name.size, vl = raw.value.size;
+    __CPROVER_assert(no == g_line_start, "C16: the field name starts at the beginning of the header line");
+    __CPROVER_assert(nl < g_buf_len && no < g_buf_len - nl && g_buf_base[no + nl] == ':', "C16: the field name ends at a ':'");
+    __CPROVER_assert(vo > no + nl && vl < g_buf_len && vo + 1 < g_buf_len - vl, "the value lies behind the ':' and is followed by two more bytes of the buffer");
+    __CPROVER_assert(g_buf_base[vo + vl] == CR && g_buf_base[vo + vl + 1] == LF, "C16: the value ends exactly at the CRLF that ends the line (value bytes intact)");
+    __CPROVER_assert(vl == 0 || g_buf_base[vo] != ' ', "C16: the spaces behind the ':' are not part of the value");
+    __CPROVER_assert(!g_line_eff || (g_line_eff_p == v && g_line_eff_n == vl), "C16: the typed header / the cookie parser was handed the same value bytes as the raw copy");
+    g_raw_added++;
+    g_effects++;
+}
 /* typed headers as far as the body step looks at them, and shared_ptr to them (null or pointing to one) */
 struct vs_hdr_cl { uint64_t value_; };
 struct vs_hdr_te { int encoding_; };
@@ -97,7 +119,7 @@ __CPROVER_ensures((OLD(v->size) <= g_i && g_i < v->size) ==> v->data[g_i] == fir
 #define CHUNK_FINAL      Pistache_Http_Private_BodyStep_Chunk_Result_Final
 '''
 TYPES = dict(_s.TYPES)
-TYPES.update({
+TYPES.update({'Pistache::Http::Header::Raw': 'struct vs_rawhdr', 'Header::Raw': 'struct vs_rawhdr',
     'std::string': 'struct vs_astr',
     'std::shared_ptr<Pistache::Http::Header::ContentLength>': 'struct vs_sp_cl',
     'std::shared_ptr<Pistache::Http::Header::TransferEncoding>': 'struct vs_sp_te',
@@ -144,6 +166,7 @@ STUBS.update({
     # the method table: find() yields an iterator modelled as an int (-1 = end()); which method is unconstrained
     'field:std::__detail::_Node_const_iterator<std::pair<std::string, Pistache::Http::Method>, false, true>::value_type::second': 'vs_nondet_method()',
     'Pistache::Http::CookieJar::addFromRaw': 'vs_eff_cookiejar_addFromRaw',
+    'ctor:Pistache::Http::Header::Raw/2': {'expr': 'vs_raw_make($0, $1)'}, 'Pistache::Http::Header::Collection::addRaw': {'expr': 'vs_eff_addRaw($this, $0)'},
     'Pistache::Http::Cookie::fromRaw': 'vs_eff_cookie_fromRaw',
     'var:Pistache::Http::httpMethods': 'vs_http_methods',
     'Pistache::Http::Handler::getParser': 'vs_get_parser',
@@ -247,7 +270,7 @@ static inline int vs_virtual_Step_apply(struct Pistache_Http_Private_Step *s, st
 '''
 THROWING = ['vs_user_onRequest', 'vs_eff_cookiejar_addFromRaw', 'vs_eff_cookie_fromRaw', 'vs_eff_header_parseRaw', 'vs_virtual_Step_apply', 'vs_astr_reserve', 'vs_astr_append_ptr_n', 'vs_astr_ctor_ptr_n']
 ALWAYS_REPLACE = _s.ALWAYS_REPLACE + ['vs_eff_cookiejar_addFromRaw', 'vs_eff_cookie_fromRaw', 'vs_eff_header_parseRaw', 'vs_copy_back_insert', 'vs_strtol', 'vs_headers_tryGet_cl', 'vs_headers_tryGet_te']
-OPAQUE = ['Pistache::Http::Header::Connection', 'Pistache::Http::ConnectionControl', 'Pistache::Tcp::Handler', 'Pistache::Http::ResponseWriter', 'Pistache::Tcp::Peer', 'Pistache::Tcp::Transport', 'Pistache::Http::Cookie', 'Pistache::Http::Header::Raw', 'Pistache::Http::Header::Registry', 'Pistache::Http::Header::Header', 'Pistache::Http::CookieJar', 'Pistache::Http::Header::Collection', 'Pistache::Http::Uri::Query', 'Pistache::Address',
+OPAQUE = ['Pistache::Http::Header::Connection', 'Pistache::Http::ConnectionControl', 'Pistache::Tcp::Handler', 'Pistache::Http::ResponseWriter', 'Pistache::Tcp::Peer', 'Pistache::Tcp::Transport', 'Pistache::Http::Cookie', 'Pistache::Http::Header::Registry', 'Pistache::Http::Header::Header', 'Pistache::Http::CookieJar', 'Pistache::Http::Header::Collection', 'Pistache::Http::Uri::Query', 'Pistache::Address',
           'std::chrono::milliseconds']
 OPAQUE_UNKNOWN = True
 RECORDS = _s.RECORDS + ['Pistache::Http::Handler', 'Pistache::Http::Response', 'Pistache::Http::Private::RequestLineStep', 'Pistache::Http::Private::ResponseLineStep', 'Pistache::Http::Private::HeadersStep', 'Pistache::ArrayStreamBuf<char>', 'Pistache::Http::Request', 'Pistache::Http::Private::ParserBase',
@@ -337,10 +360,12 @@ FUNCTIONS = list(_s.FUNCTIONS) + [
         decreases LEN(cursor) - POS(cursor)"""]},
     {'q': 'Pistache::Http::Private::HeadersStep::apply', 'hoist_all': True,
      # advance() refusals directly after a successful look-ahead (current() == ':' / ' ', eol()) are dead code
-     'dead_ok': ['return State::Again;'], 'contract': """
+     'dead_ok': ['return State::Again;'], 'loop_ghost': {0: 'g_line_start = POS(cursor); g_line_eff = 0; g_lines++;'}, 'contract': """
         requires CUR_PRE(cursor) && FRESH(this, sizeof(*this)) && FRESH(MSG(this), sizeof(*MSG(this)))
-        requires vs_exc == 0 && !g_hit_end && PTR_EQ(g_buf_base, cursor->buf->base) && g_buf_len == LEN(cursor)
-        assigns POS(cursor), g_effects, vs_exc, g_hit_end, MSG(this)->cookies_.o, MSG(this)->headers_.o
+        requires vs_exc == 0 && !g_hit_end && PTR_EQ(g_buf_base, cursor->buf->base) && g_buf_len == LEN(cursor) && g_lines == 0 && g_raw_added == 0
+        assigns POS(cursor), g_effects, vs_exc, g_hit_end, MSG(this)->cookies_.o, MSG(this)->headers_.o, g_lines, g_raw_added, g_line_eff, g_line_eff_p, g_line_eff_n, g_line_start
+        # C16: a raw copy is kept of EVERY header line of the block (registered or not, cookie or not)
+        ensures (vs_exc == 0 && RET == STATE_NEXT) ==> g_raw_added == g_lines
         ensures POS(cursor) <= LEN(cursor)
         # L1 (Revert discipline): need-more-data and every error leave the cursor where the step started
         ensures vs_exc != 0 ==> POS(cursor) == OLD(POS(cursor))
@@ -354,15 +379,15 @@ FUNCTIONS = list(_s.FUNCTIONS) + [
         # only std::exception-derived errors leave the step (so that Handler::onInput can answer them)
         ensures vs_exc == 0 || VS_EXC_IS_STD(vs_exc)""",
      'loops': ["""
-        assigns POS(cursor), g_effects, vs_exc, g_hit_end, MSG(this)->cookies_.o, MSG(this)->headers_.o, start, $HOISTED
-        invariant LOOP_ENTRY(POS(cursor)) <= POS(cursor) && POS(cursor) <= LEN(cursor) && vs_exc == 0
+        assigns POS(cursor), g_effects, vs_exc, g_hit_end, MSG(this)->cookies_.o, MSG(this)->headers_.o, g_lines, g_raw_added, g_line_eff, g_line_eff_p, g_line_eff_n, g_line_start, start, $HOISTED
+        invariant LOOP_ENTRY(POS(cursor)) <= POS(cursor) && POS(cursor) <= LEN(cursor) && vs_exc == 0 && g_raw_added == g_lines && g_lines <= POS(cursor)
         invariant g_hit_end ==> POS(cursor) + 1 >= LEN(cursor)
         decreases LEN(cursor) - POS(cursor)""", """
         assigns POS(cursor), g_hit_end
         invariant start <= POS(cursor) && POS(cursor) <= LEN(cursor) && (g_hit_end ==> POS(cursor) + 1 >= LEN(cursor))
         decreases LEN(cursor) - POS(cursor)""", """
         assigns POS(cursor), g_hit_end
-        invariant start < POS(cursor) && POS(cursor) <= LEN(cursor) && (g_hit_end ==> POS(cursor) + 1 >= LEN(cursor))
+        invariant start < POS(cursor) && LOOP_ENTRY(POS(cursor)) <= POS(cursor) && POS(cursor) <= LEN(cursor) && (g_hit_end ==> POS(cursor) + 1 >= LEN(cursor))
         decreases LEN(cursor) - POS(cursor)""", """
         assigns POS(cursor), g_hit_end
         invariant start <= POS(cursor) && POS(cursor) <= LEN(cursor) && (g_hit_end ==> POS(cursor) + 1 >= LEN(cursor))
